@@ -19,7 +19,7 @@ structure Killed (s : St) (K : List Nat) (s' : St) : Prop where
   ring : ∀ o, s'.ring o = if o ∈ K then [] else s.ring o
   ptrK : ∀ v o, o ∈ K → v ∈ s.ring o → s'.ptr v = none
   ptrU : ∀ v, (∀ o ∈ K, v ∉ s.ring o) → s'.ptr v = s.ptr v
-  par : ∀ o, o ∉ K → s'.par o = s.par o
+  par : ∀ o, o ∉ K → s.alive o = true → s'.par o = s.par o
   kidsS : ∀ b x, x ∈ s'.kids b → x ∈ s.kids b
   kidsU : ∀ b x, x ∈ s.kids b → s.alive x = true → x ∉ K → b ∉ K → x ∈ s'.kids b
   kidsN : ∀ b, (s.kids b).Nodup → (s'.kids b).Nodup
@@ -79,10 +79,10 @@ theorem Killed.trans {s s1 s2 : St} {K1 K2 : List Nat}
       · simp only [hk, if_false]
         exact hv o (List.mem_append.mpr (Or.inr ho))
     rw [h2.ptrU v b, h1.ptrU v a]
-  · intro o ho
+  · intro o ho hal
     have a : o ∉ K1 := fun c => ho (List.mem_append.mpr (Or.inl c))
     have b : o ∉ K2 := fun c => ho (List.mem_append.mpr (Or.inr c))
-    rw [h2.par o b, h1.par o a]
+    rw [h2.par o b (by rw [h1.alive]; simp [hal, a]), h1.par o a hal]
   · intro b x hx
     exact h1.kidsS b x (h2.kidsS b x hx)
   · intro b x hx ha hxk hbk
@@ -112,7 +112,7 @@ theorem Killed.perm {s s' : St} {K K' : List Nat} (hp : K.Perm K') (h : Killed s
   · intro o; rw [h.ring]; simp [hm o]
   · intro v o ho; exact h.ptrK v o ((hm o).mpr ho)
   · intro v hv; exact h.ptrU v (fun o ho => hv o ((hm o).mp ho))
-  · intro o ho; exact h.par o (fun c => ho ((hm o).mp c))
+  · intro o ho hal; exact h.par o (fun c => ho ((hm o).mp c)) hal
   · exact h.kidsS
   · intro b x hx ha a c; exact h.kidsU b x hx ha (fun d => a ((hm x).mp d)) (fun d => c ((hm b).mp d))
   · exact h.kidsN
